@@ -171,7 +171,8 @@ type c51sRPCSpec struct {
 	dup     bool // a second thread calls the same commit hook concurrently
 }
 
-func c51sScenario(name string, bc *bootstrap.Config, rpcs []c51sRPCSpec, bound int) vsched.Scenario {
+// initial == nil: one route per cluster, /A/ -> A and /B/ -> B.
+func c51sScenario(name string, bc *bootstrap.Config, initial []c51Route, rpcs []c51sRPCSpec, bound int) vsched.Scenario {
 	return vsched.Scenario{Name: name, Bound: bound, Horizon: 4000, Body: func(x *vsched.X) {
 		x.BackgroundSetup()
 		w, err := c51sNewWorld(x, bc)
@@ -179,7 +180,11 @@ func c51sScenario(name string, bc *bootstrap.Config, rpcs []c51sRPCSpec, bound i
 			x.Fail(c51sP, "harness", "Build: %v", err)
 			return
 		}
-		w.deliver([]string{"A", "B"})
+		if initial != nil {
+			w.deliverRoutes("initial", initial)
+		} else {
+			w.deliver([]string{"A", "B"})
+		}
 		w.client.pump()
 		if got := fmt.Sprint(w.latestChildren()); got != "[cluster:A cluster:B]" {
 			x.Fail(c51sP, "harness", "set-up: children %s after routes{A,B}", got)
@@ -286,7 +291,7 @@ func TestVerif_C51_ResolverSched(t *testing.T) {
 	const P = c51sP
 	r := vk.Start(t, "c51_resolver_sched", "exploration", P)
 	defer r.Finish()
-	r.Rule(P, "every schedule with at most B preemptions (quick 2, thorough 3) of closed drivers on the production xDS resolver (internal/xds/resolver instrumented: clusterInfo.refCount atomics, the OnCommitted OnceFunc lock and map ranges are scheduling points; built un-scheduled by the production Build with the real dependency manager and a scripted xDS client, routes {A,B} pushed). Threads: 2 RPCs (SelectConfig through the channel's current selector under a SafeConfigSelector-like read lock; 1-2 in-flight steps; OnCommitted), a route-configuration update to {B}, optionally a second thread calling the same commit hook; the resolver's callback serializer goroutine is adopted as a scheduled thread. Checked at every service-config push (under the write lock) and at the quiescent end against a ledger of selected-but-uncommitted RPCs; non-trivial = executions deviating from the default schedule")
+	r.Rule(P, "every schedule with at most B preemptions (quick 2, thorough 3) of closed drivers on the production xDS resolver (internal/xds/resolver instrumented: clusterInfo.refCount atomics, the OnCommitted OnceFunc lock and map ranges are scheduling points; built un-scheduled by the production Build with the real dependency manager and a scripted xDS client, routes {A,B} pushed; one scenario starts from a route configuration that references cluster A three times). Threads: 2 RPCs (SelectConfig through the channel's current selector under a SafeConfigSelector-like read lock; 1-2 in-flight steps; OnCommitted), a route-configuration update to {B}, optionally a second thread calling the same commit hook; the resolver's callback serializer goroutine is adopted as a scheduled thread. Checked at every service-config push (under the write lock) and at the quiescent end against a ledger of selected-but-uncommitted RPCs; non-trivial = executions deviating from the default schedule")
 	r.Assume(P, "scheduling points only inside internal/xds/resolver: the callback serializer (grpcsync), the dependency manager's mutex and grpcsync.RefCounted are not instrumented (their steps are atomic with the surrounding resolver step); the channel is modelled (selector + service config swapped atomically under a write lock that waits for running SelectConfig calls, as SafeConfigSelector does); an RPC counts as committed from the moment its hook is invoked")
 
 	contents, err := bootstrap.NewContentsForTesting(bootstrap.ConfigOptionsForTesting{
@@ -302,11 +307,15 @@ func TestVerif_C51_ResolverSched(t *testing.T) {
 		r.EngineError("bootstrap config: %v", err)
 		return
 	}
+	defer c51InstallWRR()()
 	b := r.Pick(2, 3)
 	scs := []vsched.Scenario{
-		c51sScenario("rpcA+rpcB+update", bc, []c51sRPCSpec{{cluster: "A", flight: 1}, {cluster: "B", flight: 1}}, b),
-		c51sScenario("rpcA+rpcA+update", bc, []c51sRPCSpec{{cluster: "A", flight: 1}, {cluster: "A", flight: 2}}, b),
-		c51sScenario("rpcA-doublecommit+rpcA+update", bc, []c51sRPCSpec{{cluster: "A", flight: 1, dup: true}, {cluster: "A", flight: 2}}, b),
+		c51sScenario("rpcA+rpcB+update", bc, nil, []c51sRPCSpec{{cluster: "A", flight: 1}, {cluster: "B", flight: 1}}, b),
+		c51sScenario("rpcA+rpcA+update", bc, nil, []c51sRPCSpec{{cluster: "A", flight: 1}, {cluster: "A", flight: 2}}, b),
+		c51sScenario("rpcA-doublecommit+rpcA+update", bc, nil, []c51sRPCSpec{{cluster: "A", flight: 1, dup: true}, {cluster: "A", flight: 2}}, b),
+		// cluster A referenced three times by the initial route configuration
+		// (two routes, one of them listing it twice in weighted_clusters)
+		c51sScenario("A-referenced-3x/rpcA+rpcA+update", bc, []c51Route{{"/A/", []string{"A", "A"}}, {"/A2/", []string{"A"}}, {"/B/", []string{"B"}}}, []c51sRPCSpec{{cluster: "A", flight: 1}, {cluster: "A", flight: 2}}, b),
 	}
 	vsched.RunScenarios(t, r, []string{P}, scs)
 	r.Sample(P, map[string]any{"scenario": "rpcA-doublecommit+rpcA+update", "threads": []string{"rpc1: SelectConfig(/A/m); yield; OnCommitted()", "rpc1-dup: wait until rpc1 is selected; OnCommitted() of rpc1 again", "rpc2: SelectConfig(/A/m); yield; yield; OnCommitted()", "update: yield; route configuration -> {B}", "callback serializer (adopted): Update -> newConfigSelector -> prune -> push -> stop old selector"}})
